@@ -157,11 +157,11 @@ func (x *toolCtx) oneTool(tr toolRun) {
 	err := cmd.Run()
 	c.Count("tool_runs", 1)
 	var label []string
-	for _, a := range tr.args[:minInt(len(tr.args), 4)] {
+	for i, a := range tr.args[:minInt(len(tr.args), 4)] {
 		switch {
 		case strings.HasPrefix(a, c.Env.Scratch):
 			a = "<file>"
-		case len(a) > 12:
+		case i > 0 && (tr.args[i-1] == "-sps" || tr.args[i-1] == "-pps" || tr.args[i-1] == "-vps"):
 			a = "<hex>"
 		}
 		label = append(label, a)
